@@ -41,6 +41,11 @@ CHECKS = {
         technique="bounded symbolic execution of the emitted decode/access program (SymAVM/z3) on the ARC-4 model's encoding of a symbolic value, run-time index as a free 64-bit variable; SMT obligation per path pair; models replayed concretely with algosdk.abi",
         text="Input = reference encoding of a symbolic value (offsets and length prefixes concrete, payload symbolic). Program = decode() followed by an access path - every tuple member / named field, arrays at constant in-range indices, at the first out-of-range index and at a run-time index taken from a second argument, one nested step - and an observation (encode(), get(), length()). z3 proves that the logged bytes equal the component's own reference encoding for every value and every in-range run-time index, and that EVERY out-of-range index (one symbolic path covering all 2^64 values) makes the program fail; versions 5..10, both storage back-ends.",
         note="Trusted: verif/arc4/model.py, TEAL op semantics, z3. Bounds: enumerated shapes, dynamic lengths <= 2/4, run-time indices into long encodings of dynamic elements are skipped above a stated size. Known findings: out-of-range indexing of bool arrays, arrays of dynamic elements and arrays of zero-size elements does not fail."),
+    "C10": dict(
+        category="model_checking", design_ref="DESIGN.md 3/C10",
+        technique="translation validation of marker programs: SymAVM(emitted TEAL) vs the recipe semantics with one cell per variable, markers derived from a symbolic input, z3/term identity per path; models replayed concretely",
+        text="n variables (n around every limit: 1,2,3,10,127,128,200,254,255,256,257,300), automatically numbered, explicitly numbered (ids 0,1,5,128,254,255, dense, colliding, below the number of automatic ones), dynamically indexed, placed in main / split over main and a subroutine / shared, under scratch-slot optimisation and frame-pointer settings, are each stored a distinct marker (input xor k) and read back: for ALL inputs every load returns its own variable's marker, index() equals the requested id and a DynamicScratchVar reaches the variable it points to. Programs needing more than 256 slots or requesting one id for two variables must be rejected. n ABI values as locals of one subroutine (1..200, around 127/128) are checked the same way under both frame-pointer settings.",
+        note="Trusted: recipe semantics (one cell per variable), TEAL op semantics, z3. Bounds: the enumerated counts/ids/placements; markers are input xor constant (distinct for every input)."),
     "C12": dict(
         category="translation_validation", design_ref="DESIGN.md 3/C12",
         technique="translation validation, TEAL vs TEAL: SymAVM on the pseudo-op program and the assembled-constants program over one symbolic context (template constants symbolic); SMT obligation per path pair incl. the value pushed at every constant-load site in execution order; models replayed concretely",
